@@ -178,6 +178,8 @@ def model_cmds(rr):
             continue
         nxt = [num(u) for u in calls[i]["requested"]] if i < k else []
         partial = True if i < k else (False if k < B else o[0] == "insufficient")
+        if i == 0 and k >= 1 and not calls[0]["returned"]:
+            partial = False     # nothing to load at all: the initial residuals are already concrete
         P, T, F = Sym("partial"), Sym("true"), Sym("false")
         if o[0] == "insufficient":
             row = (P, P, P)
